@@ -25,7 +25,8 @@ PROP = "C11"
 MIN_OBLIGATIONS = 12
 AUX = "pandapower.auxiliary"
 NOT_DECIDED = ["not decided: the sequence iteration of runpp_3ph (three coupled Newton solutions), the zero-sequence network build (pd2ppc_zero), "
-               "the *_3ph result functions beyond the transformation they all use, nodal balance per phase, equality with the symmetric "
+               "the *_3ph result functions beyond the transformation they all use, nodal balance of the solution (the injections it is "
+               "solved for are under contract: C11_loads), equality with the symmetric "
                "power flow (that V1 of the 3ph calculation is the solution of runpp)"]
 
 
@@ -111,6 +112,9 @@ def run(vc):
             note="Sa + Sb + Sc == 3 (V0 I0* + V1 I1* + V2 I2*): per-phase powers of an element sum to its total")
     vc.explore("sequence transformation[power]", h_pow, max_paths=4)
 
+
+    from contracts import C11_loads
+    C11_loads.run(vc)
 
     if not hasattr(vc, "native_standins"):
         vc.native_standins = []
